@@ -761,43 +761,13 @@ func (t *Table) ClearTable() {
 }
 
 // CopyTable 复制表格
+//
+// 返回的表格是完整的深拷贝：表格、行、单元格的属性和网格都被复制，
+// 单元格内容（包括嵌套表格、分页符、域和文本的空白保留标记）全部保留，
+// 修改副本不会影响原表格。
 func (t *Table) CopyTable() *Table {
-	// 深拷贝表格结构
-	newTable := &Table{
-		Properties: t.Properties,
-		Grid:       t.Grid,
-		Rows:       make([]TableRow, len(t.Rows)),
-	}
-
-	// 复制所有行和单元格
-	for i, row := range t.Rows {
-		newTable.Rows[i] = TableRow{
-			Properties: row.Properties,
-			Cells:      make([]TableCell, len(row.Cells)),
-		}
-
-		for j, cell := range row.Cells {
-			newTable.Rows[i].Cells[j] = TableCell{
-				Properties: cell.Properties,
-				Paragraphs: make([]Paragraph, len(cell.Paragraphs)),
-			}
-
-			// 复制段落内容
-			for k, para := range cell.Paragraphs {
-				newTable.Rows[i].Cells[j].Paragraphs[k] = Paragraph{
-					Properties: para.Properties,
-					Runs:       make([]Run, len(para.Runs)),
-				}
-
-				for l, run := range para.Runs {
-					newTable.Rows[i].Cells[j].Paragraphs[k].Runs[l] = Run{
-						Properties: run.Properties,
-						Text:       Text{Content: run.Text.Content},
-					}
-				}
-			}
-		}
-	}
+	// 与模板引擎复制文档时使用同一套深拷贝逻辑
+	newTable := new(TemplateEngine).cloneTable(t)
 
 	Info("表格复制成功")
 	return newTable
